@@ -24,6 +24,10 @@ mod memory_accessor;
 mod test_runner;
 /// Miscellaneous utility methods
 mod utils;
+/// Verification harness (deterministic simulation), only mounted when built with `--cfg mos_verif`
+#[cfg(mos_verif)]
+#[path = "/verif/harness/mod.rs"]
+pub mod verif_harness;
 
 #[derive(argh::FromArgs, PartialEq, Eq, Debug)]
 /// mos - https://mos.datatra.sh
